@@ -130,10 +130,10 @@ def gen_cases(rec, rng, tier):
     yield {'cls': 'self_loop_at_q0', 'ref1': C, 'ref2': fag.rename(C, {'x': 'u', 'y': 'v'})}
     yield {'cls': 'sigma_empty', 'ref1': fa.make(['x'], '', [], 'x', ['x']), 'ref2': fa.make(['y', 'z'], '', [], 'y', ['y'])}
     yield {'cls': 'sigma_empty', 'ref1': fa.make(['x'], '', [], 'x', ['x']), 'ref2': fa.make(['y'], '', [], 'y', [])}
-    for _ in range(300 if thorough else 80):
+    for _ in range(1200 if thorough else 80):
         k = rng.randint(1, 3)
         n = rng.randint(1, 6)
-        R = rng.choice([fag.random_dfa, fag.random_connected_dfa])(rng, n, k, p_final=rng.choice([0.3, 0.5]))
+        R = fag.maybe_digits(rng, rng.choice([fag.random_dfa, fag.random_connected_dfa])(rng, n, k, p_final=rng.choice([0.3, 0.5])))
         ren = fag.random_renaming(rng, R)
         yield {'cls': 'renamed_copy', 'ref1': R, 'ref2': ren}
         yield {'cls': 'same_dfa', 'ref1': R, 'ref2': R}
@@ -149,7 +149,7 @@ def gen_cases(rec, rng, tier):
         Tm = sorted({(rep[cls[p]], a, rep[cls[q]]) for (p, a, q) in R[2]})
         M = fa.make(Qm, R[1], Tm, rep[cls[R[3]]], sorted({rep[cls[q]] for q in R[4]}))
         yield {'cls': 'vs_minimised', 'ref1': R, 'ref2': fag.random_renaming(rng, M)}
-        other = fag.random_dfa(rng, n, k, names=fag.random_names(rng, n))
+        other = fag.with_alphabet(fag.random_dfa(rng, n, k, names=fag.random_names(rng, n)), R[1])
         yield {'cls': 'same_size_other_language', 'ref1': R, 'ref2': other}
         # flip acceptance of one reachable state / retarget one transition of the copy
         reach = sorted(fa.reachable(ren))
